@@ -1264,19 +1264,55 @@ func scenarioHalfInit(out string) (detail string, err error) {
 	cctx, cancel := context.WithCancel(context.Background())
 	cancel()
 	// lockExec succeeds (TryAcquire), then init runs under the cancelled context
+	rep := map[string]any{"how": "harness conc -halfinit", "history": "NewDB; Open; Checkpoint(ctx already cancelled); Sync(context.Background()); app write; SyncAndWait; Close; restore"}
 	e1 := db.Checkpoint(cctx, litestream.CheckpointModePassive)
 	e2 := db.Sync(context.Background())
 	h, f, _, _ := db.VerifConcHandles()
-	_ = db.Close(context.Background())
-	if e2 != nil && strings.Contains(e2.Error(), "invalid argument") {
-		violate("C12/init-under-cancelled-context-leaves-db-half-initialised",
-			fmt.Sprintf("Open; Checkpoint(cancelled ctx) = %v; Sync(background) = %q; SQL handle set=%v, file descriptor set=%v: init() keeps db.db when "+
-				"setPersistWAL fails, so the database never initialises again and every sync fails on the nil file", e1, e2.Error(), h, f),
-			map[string]any{"how": "harness conc -halfinit", "history": "NewDB; Open; Checkpoint(ctx already cancelled); Sync(context.Background())"})
-		return "reproduced: " + e2.Error(), nil
+	if e2 != nil {
+		_ = db.Close(context.Background())
+		if strings.Contains(e2.Error(), "invalid argument") || (h && !f) {
+			violate("C12/init-under-cancelled-context-leaves-db-half-initialised",
+				fmt.Sprintf("Open; Checkpoint(cancelled ctx) = %v; Sync(background) = %q; SQL handle set=%v, file descriptor set=%v: init() keeps db.db when "+
+					"setPersistWAL fails, so the database never initialises again and every sync fails on the nil file", e1, e2.Error(), h, f), rep)
+			return "reproduced: " + e2.Error(), nil
+		}
+		violate("C12/sync-fails-after-init-under-cancelled-context",
+			fmt.Sprintf("Open; Checkpoint(cancelled ctx) = %v; Sync(background) = %q (sql=%v file=%v)", e1, e2.Error(), h, f), rep)
+		return "later sync failed: " + e2.Error(), nil
+	}
+	// the later sync must also replicate: write, acknowledge, close, restore = source
+	if _, err = app.Exec(`INSERT INTO t(w, v) VALUES (1, randomblob(2000))`); err != nil {
+		return "", err
+	}
+	e3 := db.SyncAndWait(context.Background())
+	pos, _ := db.Pos()
+	e4 := db.Close(context.Background())
+	_ = app.Close()
+	if e3 != nil || e4 != nil || pos.TXID == 0 {
+		violate("C12/sync-fails-after-init-under-cancelled-context",
+			fmt.Sprintf("after Checkpoint(cancelled ctx) = %v and a successful Sync: SyncAndWait = %v, Close = %v, position %d", e1, e3, e4, pos.TXID), rep)
+		return fmt.Sprintf("not replicating: %v / %v", e3, e4), nil
+	}
+	outL := filepath.Join(dir, "latest.db")
+	if err := restore(e.repDir, outL, 0); err != nil {
+		violate("C12/sync-fails-after-init-under-cancelled-context", fmt.Sprintf("restore after the recovered init failed: %v", err), rep)
+		return "restore failed: " + err.Error(), nil
+	}
+	probe, _ := sql.Open("sqlite", "file:"+dbPath+"?_pragma=busy_timeout(0)")
+	var busy, nlog, nckpt int
+	perr := probe.QueryRow(`PRAGMA wal_checkpoint(TRUNCATE)`).Scan(&busy, &nlog, &nckpt)
+	_ = probe.Close()
+	if perr != nil || busy != 0 {
+		violate("C12/source-still-locked-after-close", fmt.Sprintf("halfinit scenario: TRUNCATE checkpoint after Close blocked (busy=%d err=%v)", busy, perr), rep)
+	}
+	_, src, _ := pageDigests(dbPath)
+	_, got, _ := pageDigests(outL)
+	if d := diffPages(got, src); len(d) > 0 {
+		violate("C12/restore-latest-differs-from-source", fmt.Sprintf("halfinit scenario: restore differs from the source on %d page(s)", len(d)), rep)
+		return "restore differs", nil
 	}
 	_ = os.RemoveAll(dir)
-	return fmt.Sprintf("not reproduced (first call: %v, second: %v)", e1, e2), nil
+	return fmt.Sprintf("passes: init under a cancelled context failed cleanly (%v); the next Sync initialised, replicated to TXID %d, restore = source", e1, pos.TXID), nil
 }
 
 // ---- main -----------------------------------------------------------------------------
